@@ -815,7 +815,7 @@ pub fn gen_ty(r: &mut Rng, big: bool) -> (Ty, &'static str) {
             (t, "unit-heavy-product")
         }
         7 | 8 => {
-            let n = if big && r.chance(1, 3) { 9 + r.below(4) } else if r.chance(1, 4) { 6 + r.below(3) } else { r.below(6) };
+            let n = if big && r.chance(1, 3) { 8 } else if r.chance(1, 4) { 5 + r.below(3) } else { r.below(6) };
             (Ty::word(n as usize), "word")
         }
         9 => {
@@ -1052,7 +1052,7 @@ pub fn gen_expr(r: &mut Rng, t: &Ty, v: &V, depth: usize, budget: &mut i64, used
         4 => {
             used[4] += 1;
             // sub-value of a larger value; the neighbour's width moves the bit offset
-            let other = match r.below(4) {
+            let other = match r.below(5) {
                 0 => bits_ty(r.below(16) as usize),
                 1 => Ty::word(r.below(4) as usize),
                 2 => gen_small_ty(r, 2),
